@@ -1,5 +1,4 @@
 import SiaModel.Ids.Decode
-import SiaModel.Driver.Rhp
 /-!
 Line-protocol ops of the id / sighash model (C12, C03), instantiated with real BLAKE2b-256.
 Byte strings travel as lowercase hex (`-` = empty); lists are comma separated (`-` = empty).
@@ -16,8 +15,8 @@ Byte strings travel as lowercase hex (`-` = empty); lists are comma separated (`
 * `sighash-v1 <prefix hex> <txn hex>` → `ok <h per signature>` (`panic` where Go would panic)
 * `block-id <parentID> <nonce> <timestamp> <commitment>` → the block id
 * `block-outs <block id> <n>` → `<n miner output ids> <foundation output id>`
-* `merkle-v1 <leaf encodings…>` → root of `blockMerkleRoot` over the encodings (payouts, then transactions)
-* `commitment <state encoding> <miner address> <txn encodings…>` → `State.Commitment`
+* `merkle-v1 <n payouts> <leaf encodings…>` → `blockMerkleRoot` (payouts, then transactions)
+* `commitment <state encoding> <miner address> <n v1 txns> <txn encodings…>` → `State.Commitment`
 -/
 namespace Sia.Driver
 open Sia Sia.Codec Sia.Ids
@@ -135,23 +134,22 @@ def blockOuts (args : List String) : String :=
     | _, _ => "bad-op"
   | _ => "bad-op"
 
-/-- `blake2b.Accumulator`: add the leaves, take the root -/
-def accRoot (leaves : List ByteArray) : ByteArray :=
-  (leaves.foldl (fun a h => a.addLeaf h) (Sia.Rhp.Acc.empty : Sia.Rhp.Acc ByteArray)).root
-
+/-- `merkle-v1 <n payouts> <leaf encodings…>`: `blockMerkleRoot` -/
 def merkleV1 (args : List String) : String :=
-  match args.mapM hexArg with
-  | some encs => Sia.hexEncode (accRoot (encs.map fun e => ⟨(blake (v1LeafPre e)).toArray⟩))
-  | none => "bad-op"
+  match args with
+  | n :: rest =>
+    match n.toNat?, rest.mapM hexArg with
+    | some n, some encs => Sia.hexEncode (blockMerkleRootB (encs.take n) (encs.drop n))
+    | _, _ => "bad-op"
+  | _ => "bad-op"
 
+/-- `commitment <state encoding> <miner address> <n v1 txns> <txn encodings…>`: `State.Commitment` -/
 def commitment (args : List String) : String :=
   match args with
-  | st :: miner :: txns =>
-    match hexArg st, hexArg miner, txns.mapM hexArg with
-    | some st, some miner, some encs =>
-      let first := blake (commitmentLeafPre (blake st) miner)
-      Sia.hexEncode (accRoot ((first :: encs.map fun e => blake (v1LeafPre e)).map fun b => ⟨b.toArray⟩))
-    | _, _, _ => "bad-op"
+  | st :: miner :: n :: txns =>
+    match hexArg st, hexArg miner, n.toNat?, txns.mapM hexArg with
+    | some st, some miner, some n, some encs => Sia.hexEncode (commitmentB st miner (encs.take n) (encs.drop n))
+    | _, _, _, _ => "bad-op"
   | _ => "bad-op"
 
 end IdsD
